@@ -35,6 +35,20 @@ fn judge(sub: &str, x: &[u8], rank: u64, case: &dyn Fn() -> Value, acc: &mut Acc
 fn bases(ctx: &Ctx, env: &Env) -> Vec<(String, Parts)> {
     let mut v = vec![("hand-encoded".to_string(), hand_encoded(b"payload!!"))];
     v.push(("hand-encoded-empty-payload".to_string(), hand_encoded(b"")));
+    // entries of every data type in the main header (the digests cover the header as it is stored)
+    {
+        let mut p = hand_encoded(b"typed");
+        p.main.push((1029, Val::Char(vec![0, 1, 2])));
+        p.main.push((5100, Val::Int8(vec![7, 200])));
+        p.main.push((1030, Val::Int16(vec![0o100644, 0o40755])));
+        p.main.push((1034, Val::Int32(vec![1, 2])));
+        p.main.push((5008, Val::Int64(vec![u64::MAX, 3])));
+        p.main.push((1043, Val::Bin(vec![9, 8, 7, 6, 5])));
+        p.main.push((1117, Val::strs(&["a", "bc"])));
+        p.main.push((1016, Val::i18n(&["g", "gruppe"])));
+        p.main.push((5101, Val::Null));
+        v.push(("hand-encoded-every-type".to_string(), p));
+    }
     let (_, b) = BuildSpec::minimal().build_bytes(env).unwrap_or_else(|e| crate::ctx::machinery(&format!("cannot build base: {}", e)));
     v.push(("built-empty".into(), split(&b).unwrap_or_else(|| crate::ctx::machinery("cannot split built package"))));
     let (_, b) = crate::corpus::one_file().build_bytes(env).unwrap_or_else(|e| crate::ctx::machinery(&format!("cannot build base: {}", e)));
@@ -200,6 +214,65 @@ pub fn run(ctx: &Ctx) -> i32 {
         subs.push(sub);
     }
     subs.push(crate::aging::run(ctx, "object-histories", &["digests"]));
+    // digest verification is also the first step of signature verification: a package whose digests do not verify
+    // must not verify its signature either, whichever signature tags it carries
+    {
+        use crate::keys::Key;
+        let env = Env::new(&ctx.repo, "c03s");
+        let mut acc = Acc::new();
+        let mut idx = 0u64;
+        for (key, comp) in [(Key::Ed25519, Comp::None), (Key::Ed25519, Comp::Gzip(6)), (Key::Rsa4096, Comp::None)] {
+            let mut spec = crate::corpus::one_file();
+            spec.sign = Some(key);
+            spec.compression = comp;
+            let bytes = spec.build_bytes(&env).unwrap_or_else(|e| crate::ctx::machinery(&format!("c03 signed base: {}", e))).1;
+            let verifier = key.verifier(&ctx.repo);
+            let parts0 = split(&bytes).unwrap_or_else(|| crate::ctx::machinery("c03: cannot split signed base"));
+            let l = vlib::refhdr::scan(&bytes).expect("scans").3;
+            // (a) the signature header's digests falsified / added wrong (the signed main header is untouched)
+            let mut variants: Vec<(String, Vec<u8>)> = vec![("as signed".into(), bytes.clone())];
+            for (what, tag, val) in [
+                ("header SHA-256 wrong", SIGTAG_SHA256, Val::str("00000000000000000000000000000000000000000000000000000000deadbeef")),
+                ("header SHA-1 added, wrong", SIGTAG_SHA1, Val::str("00000000000000000000000000000000deadbeef")),
+                ("MD5 added, wrong", SIGTAG_MD5, Val::Bin(vec![0xab; 16])),
+            ] {
+                let mut p = parts0.clone();
+                set(&mut p.sig, tag, Some(val));
+                variants.push((what.into(), p.join().0));
+            }
+            // (b) payload bytes changed behind the signed header (first, middle, last byte)
+            let plen = bytes.len() - l.payload_off;
+            for pos in [0usize, plen / 2, plen.saturating_sub(1)] {
+                if plen == 0 {
+                    continue;
+                }
+                let mut y = bytes.clone();
+                y[l.payload_off + pos] ^= 0x01;
+                variants.push((format!("payload byte {} of {} changed", pos, plen), y));
+            }
+            for (what, x) in variants {
+                idx += 1;
+                acc.evals += 1;
+                let case = || json!({"signed_with": key.name(), "compression": format!("{:?}", comp), "modification": what, "bytes_hex": vlib::hex(&x)});
+                let Ok(Ok(p)) = parse_pkg(&x) else {
+                    acc.count("rejected by the parser");
+                    continue;
+                };
+                let vd = vlib::report::catch(|| p.verify_digests());
+                let vs = vlib::report::catch(|| p.verify_signature(&verifier));
+                acc.nontrivial += 1;
+                acc.count(&format!("verify_digests {} / verify_signature {}", if matches!(vd, Ok(Ok(()))) { "Ok" } else { "Err" }, if matches!(vs, Ok(Ok(()))) { "Ok" } else { "Err" }));
+                let want_ok = what == "as signed";
+                if matches!(vd, Ok(Ok(()))) != want_ok {
+                    acc.viol(Violation::new("signature-path", format!("{}: verify_digests gives {}", what, if want_ok { "an error" } else { "Ok" }), case()).sig("clause", "digest-verdict").rank(idx));
+                }
+                if matches!(vs, Ok(Ok(()))) != want_ok {
+                    acc.viol(Violation::new("signature-path", format!("{}: verify_signature with the signer's key gives {}", what, if want_ok { "an error" } else { "Ok although the digests do not verify" }), case()).sig("clause", if want_ok { "intact-package-rejected" } else { "signature-verifies-despite-digest-mismatch" }).rank(idx));
+                }
+            }
+        }
+        subs.push(SubReport::new("signature-path", "A", "packages built and signed by the library (Ed25519 uncompressed / gzip, RSA-4096) with the signature header's digests falsified or added wrong and with payload bytes changed behind the signed header: verify_digests must fail, and verify_signature with the signer's real key must fail too (digest verification is its first step); the untouched package passes both", acc));
+    }
     // (c) corpus and assets verify
     let c = crate::corpus::run_corpus(ctx, "corpus", "oracle: reference digest verdict (must be Ok and agree with verify_digests)", &|sub, it, rank, acc| {
         let case = || it.desc.clone();
